@@ -20,6 +20,11 @@
 
    empty <retain> <hascancel> -> root=<0|1> removals=<n> cancelled=<0|1>     (RunT without any script)
 
+   ta <C> <K> <sigma> <tsig> <tend>   (a process that ignores the interrupt; times in ns from the start)
+     -> accepted=<0|1>: is there a run of the timed automaton (TsTimed.v) with slack sigma in which the
+        interrupt is sent at tsig and waitOrStop returns at tend?  The intermediate steps are placed
+        greedily, each as late as needed and at most sigma after the one before.
+
    ucheck -> closed=<bool> good=<bool> states=<n>    (the finite interleaving system, all parameters) *)
 
 let rec z_of_int i = if i = 0 then Z0 else if i > 0 then Zpos (pos_of_int i) else Zneg (pos_of_int (- i))
@@ -183,6 +188,28 @@ let do_empty () : string =
   let st = start cfg [] in
   Printf.sprintf "root=%s removals=%d cancelled=%s" (b01 st.sh.root_present) (int_of_nat st.sh.root_removals) (b01 st.sh.cancelled)
 
+let do_ta () : string =
+  let c = next_int () in let k = next_int () in let sg = next_int () in
+  let tsig = next_int () in let tend = next_int () in
+  let clamp x lo hi = Stdlib.max lo (Stdlib.min x hi) in
+  let par = { pu = { has_ctx = true; kd_pos = true; self_exit = false; int_exit = false; sig_fails = false };
+              pC = z_of_int c; pK = z_of_int k; pE = Z0; pD = Z0; psig = z_of_int sg } in
+  let a = clamp (tsig - 2 * sg) c (c + sg) in
+  let b = clamp (tsig - sg) a (a + sg) in
+  let h = clamp (tend - 6 * sg - k) tsig (tsig + sg) in
+  let f = clamp (tend - 5 * sg) (h + k) (h + k + sg) in
+  let g1 = clamp (tend - 4 * sg) f (f + sg) in
+  let g2 = clamp (tend - 3 * sg) g1 (g1 + sg) in
+  let g3 = clamp (tend - 2 * sg) g2 (g2 + sg) in
+  let g4 = clamp (tend - sg) g3 (g3 + sg) in
+  let plan = [ (a, LCtxFire); (b, LSelCtx); (tsig, LSignal); (h, LArm); (f, LTimerFire); (g1, LSelTimer);
+               (g2, LKill); (g3, LKillExit); (g4, LWaitRet); (tend, LRendezvous) ] in
+  let cur = ref 0 in
+  let moves = List.concat_map (fun (t, l) -> let d = t - !cur in cur := t; [MDelay (z_of_int d); MDisc l]) plan in
+  match texec par moves tinit with
+  | Some st -> (match st.us.uw with WDoneCtx -> "accepted=1" | _ -> "accepted=0 (wrong result)")
+  | None -> "accepted=0"
+
 let do_ucheck () : string =
   let cl = List.for_all (fun p -> closed p (reach p)) all_params in
   let gd = List.for_all (fun p -> List.for_all (ugood p) (reach p)) all_params in
@@ -195,5 +222,6 @@ let () = serve (fun ts ->
   | "batch" -> do_batch ()
   | "deadline" -> do_deadline ()
   | "empty" -> do_empty ()
+  | "ta" -> do_ta ()
   | "ucheck" -> do_ucheck ()
   | _ -> "BAD-REQUEST")
